@@ -11,10 +11,12 @@ import (
 
 // byHashFamilies are the key families of the block store that are keyed by block
 // hash or sequence number: they legitimately keep side-branch blocks and the
-// add/del history, so they are not local indexes and are not compared.
+// add/del history, so they are not local indexes and are not compared. (The
+// per-title table "CHAIN-paratx" is keyed by height, written for best-chain
+// blocks only and deleted on disconnect: it IS compared.)
 var byHashFamilies = []string{
 	"Body:", "Header:", "Hash:", "TD:", "Seq:", "HashToSeq:", "LastSequence",
-	"CHAIN-body", "CHAIN-header", "CHAIN-receipt", "CHAIN-paratx",
+	"CHAIN-body", "CHAIN-header", "CHAIN-receipt",
 	// temporary storage of the fast-download path (blocks waiting to be executed)
 	"TB:", "LTB:",
 }
